@@ -146,7 +146,7 @@ func generate(do func(string), r *Rand, tier string) {
 	nSeq, nHostile, shortCut := 140, 500, 150
 	big := false
 	if tier == "thorough" {
-		nSeq, nHostile, shortCut = 4000, 20000, 400
+		nSeq, nHostile, shortCut = 1000, 6000, 300
 		big = true
 	}
 
